@@ -37,10 +37,15 @@ class FenwickTree:
         else:
             self._n = len(values)
             self._tree = list(values)
-            for i in range(self._n):
-                j = i | (i + 1)
-                if j < self._n:
-                    self._tree[j] += self._tree[i]
+            # Node j covers the block [j & (j + 1), j]: add its children from right to left, so that every partial
+            # sum is a sum of neighbouring elements (pushing each node into its parent in index order would form
+            # sums over non-neighbouring elements, which can round where no range sum of the array does)
+            for j in range(self._n):
+                lo = j & (j + 1)
+                c = j - 1
+                while c >= lo:
+                    self._tree[j] += self._tree[c]
+                    c = (c & (c + 1)) - 1
 
     def update(self, i: int, delta: float) -> None:
         """Add delta to element at index i."""
